@@ -318,4 +318,48 @@ theorem microStep_consWalk (st : State) (t : Nat) (b : Bool) (c p : Nat)
     simp only [microStep, hop] at h
     (repeat' split at h) <;> simp [OpSt.consWalk] at h
 
+
+/-- the final decrement of a container drop comes from the end of its walk, with the cells as
+    they were -/
+theorem microStep_dropcDec (st : State) (t : Nat) (b : Bool) (c p : Nat)
+    (h : ((microStep st t b).1.th t).op = .dropcDec c p) :
+    (∃ pp, (st.th t).op = .dropc c p pp) ∧ (microStep st t b).1.sh.cells = st.sh.cells := by
+  cases hop : (st.th t).op with
+  | dropc c0 p0 pp =>
+    have h3 := (stepPP_frame st.cfg p0 c0 st.sh (st.th t).loc b pp).1
+    simp only [microStep, hop] at h ⊢
+    split at h
+    · rename_i s' l' evs heq
+      rw [heq] at h3
+      split at h
+      · simp at h
+      · simp only [upd_same, OpSt.dropcDec.injEq] at h
+        obtain ⟨rfl, rfl⟩ := h
+        rename_i hp0
+        simp only [hp0, ↓reduceIte]
+        exact ⟨⟨pp, rfl⟩, h3⟩
+    · simp at h
+  | idle =>
+    exfalso
+    simp only [microStep, hop] at h
+    split at h
+    · simp only [upd_same] at h; split at h <;> cases h
+    · rename_i txt o rest hp
+      have hcell : ((beginOp { st with th := upd st.th t { prog := rest, op := .idle, loc := (st.th t).loc } } t o).1.th t).op.cell? = some c := by
+        rw [h]; rfl
+      have h1 := beginOp_cell2 { st with th := upd st.th t { prog := rest, op := .idle, loc := (st.th t).loc } } t o c hcell
+      obtain ⟨p', _, hor⟩ := (h1.2.2.2.2 (by rw [h]; rfl)).2.2
+      rcases hor with ⟨x, hx'⟩ | hx' <;> (rw [h] at hx'; cases hx')
+  | finished => simp only [microStep, hop] at h; cases h
+  | swapSw c0 a0 out isStore =>
+    exfalso
+    simp only [microStep, hop] at h
+    split at h
+    · simp at h
+    · rw [hop] at h; cases h
+  | _ =>
+    exfalso
+    simp only [microStep, hop] at h
+    (repeat' split at h) <;> simp at h
+
 end M
